@@ -82,7 +82,7 @@ def binds(p, fid):
     out = set(p['fns'][fid - 1]['params'])
     for d in p['nodes']:
         if d['fn'] == fid:
-            if d['kind'] in ('assign', 'for', 'call', 'del', 'newobj'):
+            if d['kind'] in ('assign', 'aug', 'assign2', 'for', 'call', 'del', 'newobj', 'newlist', 'pop', 'getitem'):
                 out |= set(d['tgt'])
             if d['kind'] == 'with' and d['name']:
                 out.add(d['name'])
@@ -145,6 +145,7 @@ def finish_program(p):
             names.add(x['name'])
     p['names'] = sorted(names)
     p.setdefault('pure', 0)
+    p['lists'] = 1 if any(d['kind'] in ('newlist', 'append', 'pop', 'getitem', 'setitem') for d in p['nodes']) else 0
     p['anc'] = ancestors(p)
     return p
 
@@ -279,6 +280,25 @@ class Contexts:
             return b.setattr_node(fn, 'o', at, value)
         return b.node(kind='assign', fn=fn, tgt=[r.choice(self.names)], e=b.attr('o', at))
 
+    # -- list state: one list `l`, a local of the function under test, created by its first statements
+    def list_prologue(self, b):
+        out = [b.node(kind='newlist', fn=1, tgt=['l'])]
+        for _ in range(self.r.choice([1, 2, 2])):      # mostly non-empty, so that pop / indexing usually succeed
+            out.append(b.node(kind='append', fn=1, name='l', e=b.T(['a'] if self.r.random() < 0.5 else [])))
+        return out
+
+    def list_stmt(self, b, fn, scope, value):
+        """l.append(<value>) / x = l.pop() / x = l[k] / l[k] = <value>  (only in the function that owns l)"""
+        r = self.r
+        q = r.random()
+        if q < 0.45:
+            return b.node(kind='append', fn=fn, name='l', e=value)
+        if q < 0.6:
+            return b.node(kind='pop', fn=fn, name='l', tgt=[r.choice(self.names)])
+        if q < 0.85:
+            return b.node(kind='getitem', fn=fn, name='l', k=r.choice([0, 0, 0, 1]), tgt=[r.choice(self.names)])
+        return b.node(kind='setitem', fn=fn, name='l', k=r.choice([0, 0, 0, 1]), e=value)
+
     def decorate_def(self, b, node, scope):
         """Give the nested function of a def node a decorator and / or a parameter with a default value."""
         r = self.r
@@ -291,8 +311,10 @@ class Contexts:
             d['e'] = self.simple(b, scope)
 
 
-def initial_assignments(b, rnd, names, prob, cx=None, objects=False):
+def initial_assignments(b, rnd, names, prob, cx=None, objects=False, lists=False):
     pre = cx.object_prologue(b) if (objects and cx is not None) else []
+    if lists and cx is not None:
+        pre += cx.list_prologue(b)
     return pre + _initial_assignments(b, rnd, names, prob)
 
 
@@ -312,11 +334,12 @@ class RandomGen:
     def __init__(self, rnd, maxdepth=3, loop_else=False, maxfns=3, ifexp=True, exprstmt=True, dele=True,
                  try_=True, with_=True, calls=True, names=None, hnames=True, directives=True, contexts=None, lam_rate=0.08,
                  def_rate=0.0, call_rate=0.0, closure_bias=False, init=0.7, obj_rate=0.3,
-                 globfns=0):
+                 globfns=0, list_rate=0.2):
         self.contexts = CONTEXTS if contexts is None else contexts
         self.globfns = globfns          # number of module-level functions the function under test (and they) can call
         self.init = init                # probability that the program starts by assigning its variables
         self.objects = self.contexts and rnd.random() < obj_rate     # this program keeps attribute state on an object `o`
+        self.lists = self.contexts and rnd.random() < list_rate     # ... and a list `l` (a local of the function under test)
         self.lam_rate = lam_rate        # share of statements that store / call a lambda value
         self.def_rate = def_rate        # extra share of statements that define / call a nested function (closure profile)
         self.call_rate = call_rate
@@ -392,12 +415,21 @@ class RandomGen:
             return self.cx.lambda_stmt(b, fn, scope)
         if self.objects and self.r.random() < 0.12:
             return self.cx.object_stmt(b, fn, scope, self.value(scope, 1))
+        if self.lists and fn == 1 and self.r.random() < 0.15:
+            return self.cx.list_stmt(b, fn, scope, self.value(scope, 1))
         if self.calls and self.def_rate and depth <= 1 and len(b.fns) < self.maxfns and self.r.random() < self.def_rate:
             return self.def_stmt(fn, scope, depth)
         if self.calls and self.call_rate and self.r.random() < self.call_rate:
             c = self.call_stmt(fn, scope, infinally)
             if c:
                 return c
+        if self.contexts and r < 0.03:     # x, y = e1, e2
+            t1, t2 = self.r.choice(self.names), self.r.choice(self.names)
+            if self.r.random() < 0.4:
+                e1, e2 = b.expr(kind='name', name=t2), b.expr(kind='name', name=t1)
+            else:
+                e1, e2 = self.value(scope, 1), self.value(scope, 1)
+            return b.node(kind='assign2', fn=fn, tgt=[t1, t2], e=b.expr(kind='seq2', args=[e1, e2]))
         if r < 0.26 or deep:
             return b.node(kind='assign', fn=fn, tgt=[self.r.choice(self.names)], e=self.value(scope))
         if r < 0.30 and self.exprstmt:
@@ -493,7 +525,7 @@ class RandomGen:
             self.objects = objs
             b.fns[fid - 1]['body'] = _initial_assignments(b, self.r, self.names, 0.8, fn=fid) + gbody
         body = self.block(1, self.names + ['a', 'b'], 0, False, lo=lo, hi=hi)
-        b.fns[0]['body'] = initial_assignments(b, self.r, self.names, self.init, self.cx, self.objects) + body
+        b.fns[0]['body'] = initial_assignments(b, self.r, self.names, self.init, self.cx, self.objects, self.lists) + body
         return b.finish()
 
 
@@ -558,10 +590,26 @@ def r_stmt(p, n, ind, out):
         out.append((n, s + t))
     if k == 'assign':
         emit('%s = %s' % (', '.join(d['tgt']), r_expr(p, d['e'])))
+    elif k == 'aug':        # the expression is  target op rhs
+        x = p['exprs'][d['e'] - 1]
+        emit('%s %s= %s' % (d['tgt'][0], BINOPS[x['kind']], r_expr(p, x['args'][1])))
+    elif k == 'assign2':    # the expression is seq2(e1, e2)
+        x = p['exprs'][d['e'] - 1]
+        emit('%s, %s = %s, %s' % (d['tgt'][0], d['tgt'][1], r_expr(p, x['args'][0]), r_expr(p, x['args'][1])))
     elif k == 'expr':
         emit(r_expr(p, d['e']))
     elif k == 'newobj':
         emit('%s = O()' % d['tgt'][0])
+    elif k == 'newlist':
+        emit('%s = []' % d['tgt'][0])
+    elif k == 'append':
+        emit('%s.append(%s)' % (d['name'], r_expr(p, d['e'])))
+    elif k == 'pop':
+        emit('%s = %s.pop()' % (d['tgt'][0], d['name']))
+    elif k == 'getitem':
+        emit('%s = %s[%d]' % (d['tgt'][0], d['name'], d['k']))
+    elif k == 'setitem':
+        emit('%s[%d] = %s' % (d['name'], d['k'], r_expr(p, d['e'])))
     elif k == 'setattr':
         emit('%s.%s = %s' % (d['name'], d['attr'], r_expr(p, d['e'])))
     elif k == 'if':
@@ -783,7 +831,17 @@ def outcome(fn, args):
         return ['exc', 'TypeError']
     except AttributeError as e:
         return ['exc', 'AttributeError']
+    except IndexError as e:
+        return ['exc', 'IndexError']
     except Exception as e:      # anything else is reported verbatim and never equals a specified outcome
+        if type(e).__name__ == 'StagingError':
+            # the malt.convert wrapper re-creates an exception whose type has an initialiser of its own (every built-in
+            # exception outside its short list, e.g. IndexError) as a StagingError that quotes the original ("IndexError: pop
+            # from empty list" is the last line of the message): property C12 decides that rule, here the quoted type counts
+            import re
+            m = re.findall(r'^\s+(\w+(?:Error|Exception))\b', str(e), re.M)
+            if m and m[-1] in ('IndexError',):
+                return ['exc', m[-1]]
         return ['exc', 'OTHER:%s:%s' % (type(e).__name__, str(e)[:120])]
 
 
@@ -802,7 +860,7 @@ def spec_outcome(rec):
         return ['ret', o[1]]
     if o[1][0] == 'x':
         return ['exc', 'E%d' % o[1][1]]
-    return ['exc', {1: 'NameError', 2: 'TypeError', 3: 'AttributeError'}[o[1][1]]]
+    return ['exc', {1: 'NameError', 2: 'TypeError', 3: 'AttributeError', 4: 'IndexError'}[o[1][1]]]
 
 
 def same_observation(rec, res):
@@ -873,7 +931,19 @@ class PureGen:
         if q < 0.12 and self.objects:
             return b.setattr_node(fn, 'o', r.choice(['v', 'w']), self.arith(scope))
         if q < 0.38 or depth >= self.maxdepth:
-            return b.node(kind='assign', fn=fn, tgt=[self.tgt(fn)], e=self.arith(scope))
+            t = self.tgt(fn)
+            q2 = r.random()
+            if q2 < 0.2 and t in scope:       # x op= e
+                return b.node(kind='aug', fn=fn, tgt=[t], e=b.expr(kind=r.choice(['add', 'add', 'sub', 'mul']),
+                                                                  args=[b.expr(kind='name', name=t), self.atom(scope)]))
+            if q2 < 0.3:                      # x, y = e1, e2  (often a swap)
+                t2 = self.tgt(fn)
+                if r.random() < 0.5 and t in scope and t2 in scope:
+                    e1, e2 = b.expr(kind='name', name=t2), b.expr(kind='name', name=t)
+                else:
+                    e1, e2 = self.arith(scope), self.arith(scope)
+                return b.node(kind='assign2', fn=fn, tgt=[t, t2], e=b.expr(kind='seq2', args=[e1, e2]))
+            return b.node(kind='assign', fn=fn, tgt=[t], e=self.arith(scope))
         if q < 0.58:
             i = b.node(kind='if', fn=fn)
             N[i - 1]['e'] = self.test(scope)
